@@ -785,6 +785,9 @@ class Interp:
             for a in s.names:
                 local = a.asname or a.name
                 if s.module is None:
+                    # `from . import x` runs x's top level (unless x is being initialised further up: an import cycle binds the partial module)
+                    if a.name in self.repo.modules and a.name not in self.mod_env and a.name not in self.mod_loading:
+                        self.module_env(a.name)
                     self.store_name(local, ModuleVal(a.name), env)
                 else:
                     if a.name in self.repo.modules and s.module is None:
